@@ -185,7 +185,7 @@ func (c *V1) Do(op Op) (out Outcome) {
 		_, err := c.callPutItem(in)
 		return fin(err)
 	case OpGet:
-		in := &v1ddb.GetItemInput{TableName: aws.String(op.Table), Key: ItemToV1(op.Key)}
+		in := &v1ddb.GetItemInput{TableName: aws.String(op.Table), Key: ItemToV1(op.Key), ProjectionExpression: strp(op.Proj), ExpressionAttributeNames: v1Names(op.Names)}
 		res, err := c.callGetItem(in)
 		o := fin(err)
 		if err == nil {
@@ -226,7 +226,7 @@ func (c *V1) Do(op Op) (out Outcome) {
 		}
 		return o
 	case OpQuery:
-		in := &v1ddb.QueryInput{TableName: aws.String(op.Table), FilterExpression: strp(op.Filter),
+		in := &v1ddb.QueryInput{TableName: aws.String(op.Table), FilterExpression: strp(op.Filter), ProjectionExpression: strp(op.Proj),
 			ExpressionAttributeNames: v1Names(op.Names), ExpressionAttributeValues: ItemToV1(op.Values), IndexName: strp(op.Index),
 			ExclusiveStartKey: ItemToV1(op.Start)}
 		if !op.NoKC {
@@ -251,7 +251,7 @@ func (c *V1) Do(op Op) (out Outcome) {
 		}
 		return o
 	case OpScan:
-		in := &v1ddb.ScanInput{TableName: aws.String(op.Table), FilterExpression: strp(op.Filter),
+		in := &v1ddb.ScanInput{TableName: aws.String(op.Table), FilterExpression: strp(op.Filter), ProjectionExpression: strp(op.Proj),
 			ExpressionAttributeNames: v1Names(op.Names), ExpressionAttributeValues: ItemToV1(op.Values), IndexName: strp(op.Index),
 			ExclusiveStartKey: ItemToV1(op.Start)}
 		if op.Limit > 0 {
